@@ -5,10 +5,12 @@ ENTRY = dict(
         title="Reconstruction computes the defined estimator for both result formats",
         prop_file="Properties/C06.v",
         corr_files=["Corr/C06Corr.v"],
-        theorems=["c06_E_def", "c06_estimator", "c06_v1_v2", "c06_split_pack", "c06_from_bytes", "c06_count_refused",
-                  "c06_sign_values", "c06_keys", "c06_keys_same_result", "c06_total", "c06_measured_qubits", "c06_mask_bits", "c06_lookup",
-                  "c06_letters_shape", "c06_keys_parser", "c06_estimator_parser", "c06_v2_own_shots", "c06_public_estimator",
-                  "c06_grouping_bridge", "c06_grouping_shape", "c06_estimator_grouping", "c06_v1_v2_estimator_grouping",
+        theorems=["c06_process_outcome_spec", "c06_estimator", "c06_v1_v2", "c06_v1_merge", "c06_v1_v2_dict", "c06_split_pack",
+                  "c06_from_bytes", "c06_count_refused", "c06_public_count_refused",
+                  "c06_sign_values", "c06_keys", "c06_keys_same_result", "c06_refusal_causes", "c06_measured_qubits", "c06_mask_bits",
+                  "c06_lookup", "c06_letters_shape", "c06_keys_parser", "c06_estimator_parser", "c06_v2_own_shots", "c06_public_estimator",
+                  "c06_grouping_bridge", "c06_grouping_shape", "c06_lookup_nonempty", "c06_estimator_grouping",
+                  "c06_v1_v2_estimator_grouping", "c06_public_estimator_grouping",
                   "c06_oracle_contract_inhabited",
                   "c06_types_refused", "c06_keyset_refused", "c06_phase_refused", "c06_public_map", "c06_public_list",
                   "c06_facts"],
@@ -16,23 +18,32 @@ ENTRY = dict(
         facts=["value_error_sites"],
         harness="c06",
         level_text="Unbounded theorems (any number of partitions, commuting groups, observables, coefficients, outcomes/shots, any "
-                   "register widths, exact rationals incl. negative quasi-probabilities) about the executable model of "
-                   "reconstruct_expectation_values / _process_outcome / _process_outcome_v2 / _outcome_to_int: the model returns "
-                   "sum_i coeff_i * prod_partitions E_i,partition[k] with E defined declaratively by bit tests (parity of the QPD bits "
-                   "times parity of the measured bits selected by the observable, averaged with the quasi-probabilities resp. 1/shots, "
-                   "experiment index i*#groups+m, mean over lookup locations); V2 data and the V1 data describing the same shots give the "
-                   "identical result (split_pack over N, no byte boundary; big-endian row read proved for rows of any length); count, "
-                   "type, key-set and phase mismatches are refused; every processed value is +-1; int / binary / 0b / 0x keys are sent "
-                   "to the right radix and equivalent keys give the same result. Closed under the global context. The model is run "
-                   "against the implementation on ~4000 generated cases per quick run with exact rational comparison (within 1e-9 on the "
-                   "non-power-of-two-shots stream); c06_total: the loops never crash and refuse only for a count mismatch or a rejected key. "
-                   "Extension: c06_grouping_bridge proves that the groups / measured-bit counts / bitmasks / lookup produced by C11's model of "
-                   "ObservableCollection (Model/Grouping.v: most_general_observable, __post_init__, lookup loop, for ANY answer of the "
-                   "group_commuting oracle) are exactly the partition the C06 model uses, so c06_estimator_grouping and "
-                   "c06_v1_v2_estimator_grouping state 'value = defined estimator' and 'V1 = V2' for the masks the grouping code really "
-                   "produces with the executable key parser pyint0_ref, leaving only: count match, every key accepted by the parser, "
-                   "observable values fit their register. c06_v2_own_shots: the V2 average divides by the shot count of the pub being "
-                   "processed. c06_public_estimator lifts the estimator theorem through the public dict-form wrapper.",
+                   "register widths, exact rationals incl. negative quasi-probabilities) about the executable MODEL of "
+                   "reconstruct_expectation_values / _process_outcome / _process_outcome_v2 / _outcome_to_int. PROVED: (1) c06_estimator: "
+                   "under the input preconditions 'result count = #coefficients x #groups', 'every partition has nobs lookup lists, each "
+                   "NON-EMPTY with existing locations' (locs_ok_ne; an empty list would make the model's mean 0/0 = 0 where numpy gives nan) "
+                   "and 'every V1 key is accepted', the model returns sum_i coeff_i * prod_partitions E_i,partition[k] up to equality of "
+                   "rationals, E being defined declaratively by bit tests (parity of the QPD bits times parity of the measured bits "
+                   "selected by the observable, weighted by the quasi-probabilities resp. 1/(shots of that pub), experiment index "
+                   "i*#groups+m, mean over lookup locations); c06_process_outcome_spec: _process_outcome returns that declarative value "
+                   "entry by entry. (2) V1 = V2: c06_v1_v2 for the one-entry-per-shot LIST (duplicates kept, literal equality); "
+                   "c06_v1_merge / c06_v1_v2_dict for the DICT-shaped V1 twin (distinct integer keys, weight = summed 1/shots), equality "
+                   "of rationals, under the preconditions of (1) plus 'observable values fit their register' (split_pack over N, no byte "
+                   "boundary; big-endian row read for rows of any length). (3) c06_count_refused / c06_public_count_refused: a count "
+                   "mismatch is refused by the loops and by the public function in both call forms; c06_refusal_causes: a refusal of the "
+                   "loops has exactly two causes (count mismatch, rejected key) -- that the model never yields Crashed there is by "
+                   "construction (nth defaults, truncating vmul) and is NOT a claim about Python on ill-shaped lookups. (4) keys: int / "
+                   "binary / 0b 0B / 0x 0X keys go to the right radix (c06_keys under the int(s,0) contract; c06_keys_parser for the "
+                   "executable parser without hypothesis); equivalent keys give the same result. (5) c06_grouping_bridge: the groups / "
+                   "measured-bit counts / bitmasks / lookup that C11's model of ObservableCollection computes are exactly the partition the "
+                   "C06 model builds from the letters; when the unique()/group_commuting oracle answer satisfies C11's grouping_contract, "
+                   "c06_lookup_nonempty (no empty lookup), c06_estimator_grouping, c06_v1_v2_estimator_grouping and "
+                   "c06_public_estimator_grouping hold with only: equal label sets, count match, every key accepted by the parser, "
+                   "observable values fit. (6) c06_public_estimator lifts (1) through the dict-form public wrapper; c06_types_refused, "
+                   "c06_keyset_refused, c06_phase_refused, c06_public_map, c06_public_list are by case analysis of the model's wrapper. "
+                   "All closed under the global context. ONLY TESTED: model = implementation (~4400 generated cases per quick run, exact "
+                   "rational comparison on dyadic data, 1e-9 on the non-power-of-two-shots stream), pyint0_ref = Python int(s,0), "
+                   "container reads (QuasiDistribution, BitArray), binary64 arithmetic.",
         level_note=STD_NOTE + "No axioms.",
         assumptions=[
             "Model/Reconstruct.v is a hand-written model of cutting_reconstruction.py (+ bit_count, _get_pauli_indices' length); it is "
@@ -52,17 +63,23 @@ ENTRY = dict(
             "executable parser pyint0_ref and need NO contract hypothesis; what remains assumed is that pyint0_ref agrees with "
             "Python's int(s, 0) on strings without sign, underscore or non-space white space (compared on every generated string, "
             "stream pyint0)",
-            "the C06 cone now contains C11's Model/Grouping.v + Proofs/GroupingP.v (bridge); PauliList.unique()/group_commuting stay "
-            "oracles of that model, but the C06 theorems hold for every oracle answer for which the collection is built (no use of "
-            "the grouping contract); the composition is tied to /repo by the stream collection_part (C11's model run on the real "
-            "groups, its masks / lookup compared with the real pauli_bitmasks / lookup)",
+            "the C06 cone contains C11's Model/Grouping.v + Proofs/GroupingP.v (bridge); PauliList.unique()/group_commuting are "
+            "ORACLES of that model. c06_grouping_bridge / c06_grouping_shape hold for every oracle answer for which the collection is "
+            "built, but an answer that drops an observable would give an empty lookup where Python raises KeyError, so the end-to-end "
+            "theorems (from_collection / part_from_collection) assume C11's grouping_contract for the oracle answer (kind: oracle; "
+            "evaluated in Coq on every collection_part case and monitored in C11's harness); the composition is tied to /repo by the "
+            "stream collection_part (C11's model run on the real groups, its masks / lookup compared with the real ones)",
+            "remaining hypotheses of the end-to-end theorems, by kind: input preconditions (equal label sets, result count, every key "
+            "accepted by the parser, observable value < 2^register width -- a BitArray invariant); oracle (grouping_contract); none of "
+            "success-case kind",
             "OBSERVATION: _outcome_to_int treats a digit string whose second character is 0/1 as binary and any other as int(s,0): "
             "'10' -> 2 but '12' -> 12, '2' -> ValueError; such undocumented key shapes are outside the quantifier (judge silent, model = code)",
             "outcome keys are non-negative ints or str; quasi-probabilities, coefficients and 1/shots are exact rationals (binary64 "
             "rounding not modelled; the harness only feeds dyadic values on which float arithmetic is exact)",
             "Qiskit containers are taken at face value: QuasiDistribution normalises keys to int on construction (monitored), "
             "BitArray.array rows are big-endian bytes of the register value (monitored against BitArray.from_samples)",
-            "sub-observable lists of different lengths across partitions, empty observable dicts and non-int/str keys are outside the "
-            "property's domain; the model is total there but nothing is claimed or compared",
+            "sub-observable lists of different lengths across partitions, out-of-range or empty lookup lists, empty observable dicts "
+            "and non-int/str keys are outside the property's domain: the model is total there (nth defaults, truncating vmul, "
+            "Qmean [] = 0) where Python raises IndexError/KeyError or yields nan; nothing is claimed (premises exclude them) or compared",
         ],
     )
